@@ -172,12 +172,39 @@ class FS:
         par, name = self.ensure_groups(fname, path)
         self.objs[par]["children"][name] = ("hard", self.new_obj(cooler=data))     # occupied path: replaced completely
 
+    def reachable(self, fname, oid, acc=None):
+        """all (file, oid) reachable from an object through hard, soft and external links"""
+        acc = set() if acc is None else acc
+        if (fname, oid) in acc:
+            return acc
+        acc.add((fname, oid))
+        for ref in self.objs[oid]["children"].values():
+            r = self.deref(fname, ref)
+            if r is not None:
+                self.reachable(r[0], r[1], acc)
+        return acc
+
     def _check_src_dst(self, sf, sp, df, dp, need_dst_free=True, overwrite=False):
         if sf == df and (self.inside(dp, sp) or self.inside(sp, dp)) and self.parts(sp) != self.parts(dp):
             raise Unspecified("destination inside the source's own subtree (or the reverse)")
         if sf == df and self.parts(sp) == self.parts(dp):
             raise Unspecified("source == destination")
         s = self.resolve(sf, sp)
+        if s is not None and df in self.files:
+            # the same exclusion at OBJECT level: the destination's existing ancestors must not lie inside the source object
+            # (reached through an alias: a hard or soft link), or the result is a cycle
+            cur_f, cur = df, self.files[df]
+            inside = self.reachable(s[0], s[1])
+            for name in self.parts(dp)[:-1]:
+                ref = self.objs[cur]["children"].get(name)
+                r = self.deref(cur_f, ref) if ref is not None else None
+                if r is None:
+                    break
+                cur_f, cur = r
+                if (cur_f, cur) in inside:
+                    raise Unspecified("destination lies inside the source object (reached through a link)")
+            if (df, self.files[df]) in inside and self.parts(dp):
+                raise Unspecified("destination file's root is reachable from the source")
         if s is None:
             if overwrite:
                 raise Unspecified("overwrite requested with a missing source")
@@ -198,10 +225,18 @@ class FS:
             raise Unspecified("source reached through an external link")
         new = self.deep_copy_obj(sf, s[1])
         if not self.parts(dp):
-            # copy INTO the root of a fresh file: children and attributes of the source become the root's
+            # copy INTO the root of a fresh file: every child is copied BY PATH (h5py dereferences soft/external links when an
+            # object is copied by its path), the attributes of the source become the root's
             root = self.objs[self.files[df]]
             root["cooler"] = self.objs[new]["cooler"]
-            root["children"].update(self.objs[new]["children"])
+            for name, ref in self.objs[s[1]]["children"].items():
+                if ref[0] == "hard":
+                    root["children"][name] = self.objs[new]["children"][name]
+                else:
+                    r = self.deref(sf, ref)
+                    if r is None:
+                        raise Unspecified("copying a dangling link by path")
+                    root["children"][name] = ("hard", self.deep_copy_obj(r[0], r[1]))
             return
         par, name = self.ensure_groups(df, dp)
         self.objs[par]["children"][name] = ("hard", new)
